@@ -5,10 +5,11 @@ Property theorems only, about the executable node model `Corro/Model/Node.lean`
 `Node.deliver`, `process_fully_buffered_changes` = `Node.applyBuffered`).  Helper definitions and
 lemmas: `Corro/Lemmas/NodeSeq.lean` (`touching`, `mergedLo/Hi`, `rowsOf`, `SeqRowsWF`, `SeqMem`,
 `bufAdd`, `sameKey`, `ChunkWF`, `Node.BufCovered`), `NodeBook.lean` (`Node.BookWF`),
-`NodeDeliver.lean` (`Item.incomplete`), `NodeApply.lean`, `NodeResolve.lean`.
+`NodeDeliver.lean` (`Item.incomplete`), `NodeResolve.lean`/`NodeCover.lean`/`NodeHolder.lean` (resolution
+of a partial), `NodeSingle.lean`/`NodeUnchunked.lean` (`CsOK`, `chunkOf`, `chunkItem`, `Before`, `After`),
+`NodeConsistent.lean` (`ItemWF`, `Consistent`, `NoPending`; described in the header of `Props/C06.lean`).
 -/
-import Corro.Lemmas.NodeDeliver
-import Corro.Lemmas.NodeEx
+import Corro.Lemmas.NodeExFacts
 
 namespace Corro.Node
 open Corro.Crdt
@@ -128,5 +129,192 @@ of incomplete chunks, covered or not. -/
 theorem invisible_while_dead (n : Node) (batch : List Item) (hinc : ∀ it ∈ batch, it.incomplete)
     (hd : n.alive = false) : (n.deliver batch).db = n.db :=
   deliver_incomplete_dead n batch hinc hd
+
+/-! ### 4. at the covering step everything becomes visible at once, as if unchunked -/
+
+/-- **C03 ("at that point all of them become visible in one step with the same result as applying
+the unchunked transaction … independent of chunk boundaries, arrival order, duplicates, overlap").**
+Let `cs` be the change list of version `(site, ver)` (`CsOK`: strictly sorted by seq, attributed to
+the version, seqs in `0..=last`), and let the chunk with seq range `r` be
+`chunkItem site ver last cs r = Full site ver r last (the changes of cs with seq in r)`.
+Deliver ANY list of chunks `chunks` (forward ranges inside `0..=last`; any order, duplicates,
+overlaps), one chunk per batch, to an alive, consistent node with nothing pending and unique buffer
+keys that does not know the version (no partial, `containsVersion = false`).  Then:
+
+1. after any such list — covering or not — the store is either still literally `n.db` or literally
+   `mergeAll n.db cs` (all or nothing);
+2. if the ranges cover `0..=last`, the final store is literally `mergeAll n.db cs`, **equal as
+   databases** (not only under the CRDT view: the buffered rows are applied sorted by seq, which is
+   the order of `cs`);
+3. which is the store obtained by delivering the unchunked changeset. -/
+theorem apply_eq_unchunked {L : Nat → Nat → Nat} {n : Node} {site ver last : Nat} {cs : List Chg}
+    (hc : Consistent L n) (hal : n.alive = true) (hnp : NoPending n) (hk : BufKeysUnique n.buf)
+    (hpn : (n.booked site).partial? ver = none) (hcv : (n.booked site).containsVersion ver = false)
+    (hcs : CsOK site ver last cs) (hL : L site ver = last) (chunks : List (Nat × Nat))
+    (hch : ∀ r ∈ chunks, r.1 ≤ r.2 ∧ r.2 ≤ last) :
+    let final := chunks.foldl (fun m r => m.deliver [chunkItem site ver last cs r]) n
+    (final.db = n.db ∨ final.db = mergeAll n.db cs) ∧
+    ((∀ x, x ≤ last → ∃ r ∈ chunks, r.1 ≤ x ∧ x ≤ r.2) → final.db = mergeAll n.db cs) ∧
+    (n.deliver [Item.full site ver 0 last last cs]).db = mergeAll n.db cs := by
+  have h0 : Before L site ver cs n.db n := Before.init hc hal hnp hk hpn hcv
+  refine ⟨?_, fun hcov => chunks_apply h0 hcs hL chunks hch hcov, ?_⟩
+  · rcases chunks_all_or_nothing h0 hcs hL chunks hch with h | h
+    · exact Or.inl h.db
+    · exact Or.inr h.db
+  · have := (h0.step_complete hcs hL).db
+    unfold chunkItem at this
+    rw [chunkOf_all hcs] at this
+    exact this
+
+/-- **C03 (the covering step, spelled out).**  In a state where the version is not applied yet
+(`Before`), one more chunk either leaves the store alone and adds its range to the received ranges,
+or applies the version: the store becomes `mergeAll db0 cs` — the buffered rows are merged exactly
+once, sorted by seq — and from then on every chunk of the version is known and ignored. -/
+theorem covered_applied_once {L : Nat → Nat → Nat} {m : Node} {site ver last : Nat} {cs : List Chg}
+    {db0 : Db} (h : Before L site ver cs db0 m) (hcs : CsOK site ver last cs) (hL : L site ver = last)
+    (r : Nat × Nat) (hlh : r.1 ≤ r.2) (hr : r.2 ≤ last) :
+    let m' := m.deliver [chunkItem site ver last cs r]
+    (Before L site ver cs db0 m' ∧ m'.db = db0 ∧
+      ∀ x, (SeqMem m.seqRows site ver x ∨ (r.1 ≤ x ∧ x ≤ r.2)) → SeqMem m'.seqRows site ver x) ∨
+    (m'.db = mergeAll db0 cs ∧
+      ∀ r', r'.2 ≤ last → m'.deliver [chunkItem site ver last cs r'] = m') := by
+  rcases h.step hcs hL r hlh hr with ⟨hb, hm⟩ | ha
+  · exact Or.inl ⟨hb, hb.db, hm⟩
+  · exact Or.inr ⟨ha.db, fun r' hr' => ha.step r' hr'⟩
+
+/-- the two-chunk case `[0..k]`, `[k+1..last]`, in both orders -/
+theorem apply_eq_unchunked_two {L : Nat → Nat → Nat} {n : Node} {site ver last : Nat} {cs : List Chg}
+    (hc : Consistent L n) (hal : n.alive = true) (hnp : NoPending n) (hk : BufKeysUnique n.buf)
+    (hpn : (n.booked site).partial? ver = none) (hcv : (n.booked site).containsVersion ver = false)
+    (hcs : CsOK site ver last cs) (hL : L site ver = last) (k : Nat) (hkl : k < last) :
+    ((n.deliver [chunkItem site ver last cs (0, k)]).deliver [chunkItem site ver last cs (k + 1, last)]).db =
+      mergeAll n.db cs ∧
+    ((n.deliver [chunkItem site ver last cs (k + 1, last)]).deliver [chunkItem site ver last cs (0, k)]).db =
+      mergeAll n.db cs := by
+  constructor
+  · refine (apply_eq_unchunked hc hal hnp hk hpn hcv hcs hL [(0, k), (k + 1, last)] ?_).2.1 ?_
+    · intro r hr
+      simp only [List.mem_cons, List.not_mem_nil, or_false] at hr
+      rcases hr with rfl | rfl <;> simp only <;> omega
+    · intro x hx
+      by_cases h : x ≤ k
+      · exact ⟨(0, k), by simp, by simp only; omega⟩
+      · exact ⟨(k + 1, last), by simp, by simp only; omega⟩
+  · refine (apply_eq_unchunked hc hal hnp hk hpn hcv hcs hL [(k + 1, last), (0, k)] ?_).2.1 ?_
+    · intro r hr
+      simp only [List.mem_cons, List.not_mem_nil, or_false] at hr
+      rcases hr with rfl | rfl <;> simp only <;> omega
+    · intro x hx
+      by_cases h : x ≤ k
+      · exact ⟨(0, k), by simp, by simp only; omega⟩
+      · exact ⟨(k + 1, last), by simp, by simp only; omega⟩
+
+/-! ### 5. a partial is resolved by what a holder answers -/
+
+/-- **C03 ("every partially received version is eventually applied or discarded (and its buffered
+copies removed) once its missing ranges have been answered by a peer that holds the version").**
+The receiver `n` (consistent, alive, nothing pending) holds `(site, ver)` as the incomplete partial
+`p` and receives, in one batch, exactly what `handleNeed h site (Partial ver (gaps of p in
+0..=last))` returns from a holder `h` that holds the version:
+* either `h` has live changes of the version whose largest seq is the version's `last_seq`
+  (`L site ver`) — it answers one `Full` changeset per gap;
+* or every change of the version was overwritten on `h` (no live change, no buffered row, not
+  needed) — it answers `Empty ver..=ver`.
+Afterwards the version is not partial on the receiver any more (no partial, or a complete one that
+has been applied), it has no sequence rows and no buffered rows, and it is not needed. -/
+theorem partial_resolved_by_holder {L : Nat → Nat → Nat} {n h : Node} {site ver : Nat} {p : Partial}
+    (hc : Consistent L n) (hal : n.alive = true) (hnp : NoPending n)
+    (hp : (n.booked site).partial? ver = some p) (hinc : p.complete = false)
+    (hholder : ((h.live site ver).isEmpty = false ∧ maxSeq (h.live site ver) = L site ver) ∨
+      ((h.live site ver).isEmpty = true ∧ (∀ c ∈ h.buf, ¬ (c.site = site ∧ c.dbv = ver)) ∧
+        ¬ RSet.Mem (h.booked site).needed ver)) :
+    let n' := n.deliver (handleNeed h site (.part ver (RSet.gaps p.seqs (0, p.last))))
+    ((n'.booked site).partial? ver = none ∨
+      ∃ q, (n'.booked site).partial? ver = some q ∧ q.complete = true) ∧
+    rowsOf n'.seqRows site ver = [] ∧ bufOf n'.buf site ver = [] ∧
+    ¬ RSet.Mem (n'.booked site).needed ver := by
+  rcases hholder with ⟨hl, hlast⟩ | ⟨hl, hb, hg⟩
+  · exact resolved_by_live hc hal hnp hp hl hlast
+  · have hbatch : handleNeed h site (.part ver (RSet.gaps p.seqs (0, p.last))) = [Item.empty site ver ver] := by
+      apply handleNeed_part_empty h site ver _ hl (hasBuf_false_iff.mpr hb)
+      cases hgg : h.inGaps site ver with
+      | false => rfl
+      | true => exact absurd (inGaps_iff.mp hgg) hg
+    rw [hbatch]
+    have := resolved_by_empty n site ver p hp hinc (hc.actor site).needed_wf
+    exact ⟨Or.inl this.1, this.2.1, this.2.2.1, this.2.2.2⟩
+
+/-- the `Empty` branch needs nothing but a canonical `needed` set on the receiver (dead or alive,
+any state): this is the behaviour restored by the fix that made `BookedVersions::contains(v, None)`
+false for an incomplete partial — before it the `Empty` was dropped as "already known" and the
+partial stayed forever -/
+theorem partial_resolved_by_empty (n : Node) (site ver : Nat) (p : Partial)
+    (hp : (n.booked site).partial? ver = some p) (hinc : p.complete = false)
+    (hw : RSet.WF (n.booked site).needed) :
+    (n.booked site).contains ver none = false ∧
+    ((n.deliver [Item.empty site ver ver]).booked site).partial? ver = none ∧
+    rowsOf (n.deliver [Item.empty site ver ver]).seqRows site ver = [] ∧
+    bufOf (n.deliver [Item.empty site ver ver]).buf site ver = [] ∧
+    ¬ RSet.Mem ((n.deliver [Item.empty site ver ver]).booked site).needed ver :=
+  ⟨contains_none_incomplete _ _ _ hp hinc, resolved_by_empty n site ver p hp hinc hw⟩
+
+/-! ### concrete states (non-vacuity) -/
+
+namespace Ex
+
+/-- `srv` (`Lemmas/NodeEx.lean`) holds seqs 0..1 of version 3 of actor 1 (`last_seq = 3`): its
+rows are canonical, its partials canonical, it is consistent with nothing pending -/
+example : SeqRowsWF srv.seqRows 1 3 ∧ srv.BookWF ∧ srv.BufCovered ∧ Consistent L srv ∧ NoPending srv ∧
+    BufKeysUnique srv.buf :=
+  ⟨by decide, srv_consistent.bookWF, srv_consistent.bufCovered, srv_consistent, srv_noPending,
+    by unfold BufKeysUnique; decide⟩
+
+/-- a chunk that touches the stored row on the right is merged with it (case 5 of the SQL) -/
+example : (srv.bufferChunk 1 3 2 2 3 [ch "4" "a" 1 3 2]).1.seqRows = [⟨1, 3, 0, 2, 3⟩] ∧
+    (srv.bufferChunk 1 3 3 3 3 [ch "4" "b" 1 3 3]).1.seqRows = [⟨1, 3, 0, 1, 3⟩, ⟨1, 3, 3, 3, 3⟩] := by
+  decide
+
+/-- `invisible_until_covered` on `srv`: the chunk `3..=3` does not complete version 3 (seq 2 is
+missing): the hypotheses hold and the store is unchanged; then the chunk `2..=2` completes it and
+all four changes appear at once -/
+example :
+    (∀ it ∈ [Item.full 1 3 3 3 3 [ch "4" "b" 1 3 3]], it.incomplete) ∧
+    ((srv.deliver [Item.full 1 3 3 3 3 [ch "4" "b" 1 3 3]]).booked 1).partial? 3 = some ⟨[(0, 1), (3, 3)], 3⟩ ∧
+    (srv.deliver [Item.full 1 3 3 3 3 [ch "4" "b" 1 3 3]]).db.rows = srv.db.rows ∧
+    ((srv.deliver [Item.full 1 3 3 3 3 [ch "4" "b" 1 3 3]]).deliver
+      [Item.full 1 3 2 2 3 [ch "4" "a" 1 3 2]]).live 1 3 = v3 := by decide
+
+/-- `apply_eq_unchunked` on a fresh node: version 3 in two chunks, in both orders, and in four
+overlapping / duplicated chunks, gives the rows of the unchunked delivery -/
+example : CsOK 1 3 3 v3 ∧
+    (((Node.fresh 9).deliver [chunkItem 1 3 3 v3 (2, 3)]).deliver [chunkItem 1 3 3 v3 (0, 1)]).db.rows =
+      ((Node.fresh 9).deliver [Item.full 1 3 0 3 3 v3]).db.rows ∧
+    ((((Node.fresh 9).deliver [chunkItem 1 3 3 v3 (1, 2)]).deliver [chunkItem 1 3 3 v3 (1, 2)]).deliver
+      [chunkItem 1 3 3 v3 (2, 3)]).db.rows = (Node.fresh 9).db.rows ∧
+    (((((Node.fresh 9).deliver [chunkItem 1 3 3 v3 (1, 2)]).deliver [chunkItem 1 3 3 v3 (1, 2)]).deliver
+      [chunkItem 1 3 3 v3 (2, 3)]).deliver [chunkItem 1 3 3 v3 (0, 1)]).db.rows =
+      ((Node.fresh 9).deliver [Item.full 1 3 0 3 3 v3]).db.rows := by
+  refine ⟨v3_ok, by decide, by decide, by decide⟩
+
+/-- a holder with the whole version 3 live, and a holder on which it was cleared -/
+def holderLive : Node := (Node.fresh 8).deliver [Item.full 1 3 0 3 3 v3]
+def holderCleared : Node := (Node.fresh 7).deliver [Item.empty 1 3 3]
+
+/-- `partial_resolved_by_holder` on `srv`: the hypotheses hold for both holders; the live holder
+answers the gap `2..=3` and version 3 gets applied, the cleared holder answers `Empty` and the
+partial is discarded with its rows -/
+example :
+    ((srv.booked 1).partial? 3 = some ⟨[(0, 1)], 3⟩) ∧
+    (holderLive.live 1 3).isEmpty = false ∧ maxSeq (holderLive.live 1 3) = L 1 3 ∧
+    handleNeed holderLive 1 (.part 3 (RSet.gaps [(0, 1)] (0, 3))) = [Item.full 1 3 2 3 3 v3hi] ∧
+    (srv.deliver (handleNeed holderLive 1 (.part 3 (RSet.gaps [(0, 1)] (0, 3))))).live 1 3 = v3 ∧
+    (srv.deliver (handleNeed holderLive 1 (.part 3 (RSet.gaps [(0, 1)] (0, 3))))).seqRows = [] ∧
+    (holderCleared.live 1 3).isEmpty = true ∧
+    handleNeed holderCleared 1 (.part 3 (RSet.gaps [(0, 1)] (0, 3))) = [Item.empty 1 3 3] ∧
+    ((srv.deliver [Item.empty 1 3 3]).booked 1).partial? 3 = none ∧
+    (srv.deliver [Item.empty 1 3 3]).seqRows = [] ∧ (srv.deliver [Item.empty 1 3 3]).buf = [] := by
+  decide
+
+end Ex
 
 end Corro.Node
